@@ -301,6 +301,33 @@ def check(chk):
     au = [c for c in sw.calls() if call_attr(c) == "_audit"]
     ok = len(au) == 1 and [src(x) for x in au[0].args] == ["value", "audit_class", "key_name"]
     chk.ob("DOM-38", "a coin is audited once with its own value, class and label", ok, sw.where(), construct=sw.ident, text="coin audit")
+    # ... every coin: the machine swallowed it, whether or not it bought anything (a coin at the credit cap is still money in the box)
+    swc = sw.cfg()
+    for nm in ("_audit", "_add_credit_units", "_reset_timeouts"):
+        ns = [n for n, c in swc.calls_named(nm)]
+        ok = len(ns) == 1 and not swc.guards_at(ns[0].id) and swc.must_pass(swc.entry.id, [ns[0].id], ends=[swc.exit.id]) is None
+        chk.ob("DOM-38", "every coin through a credit switch runs %s (no condition: also a coin that adds no credit is audited)" % nm, ok, sw.where(), construct=sw.ident,
+               text="coin step unconditional " + nm)
+    for nm in ("_audit", "_audit_event"):
+        am_ = cr.methods[nm]
+        chk.analysed(am_)
+        aucfg = am_.cfg()
+        sv_ = [n for n, c in aucfg.calls_named("save_all")]
+        ok = len(sv_) == 1 and not aucfg.guards_at(sv_[0].id) and aucfg.must_pass(aucfg.entry.id, [sv_[0].id], ends=[aucfg.exit.id]) is None
+        chk.ob("DOM-38", "%s hands the updated earnings to the data manager on every path" % nm, ok, am_.where(), construct=am_.ident, text="audit saved " + nm)
+    # the pricing table is rebuilt from scratch every time it is calculated (the mode is restarted after service): what the loop carries
+    # from tier to tier starts at zero, the table starts empty
+    pt_ = cr.methods["_calculate_pricing_tiers"]
+    chk.analysed(pt_)
+    pcfg = pt_.cfg()
+    lps = [h for h in pcfg.nodes if h.kind == "loop"]
+    chk.need(lps, "TIER-1", "_calculate_pricing_tiers loops over the configured tiers", pt_)
+    first = min(lps, key=lambda h: h.lineno)
+    for attr, val in (("self.pricing_tiers_wrap_around", "0"), ("self.pricing_table", "{}")):
+        ini = [n for n in pcfg.nodes if n.kind == "stmt" and isinstance(n.ast, ast.Assign) and src(n.ast.targets[0]) == attr and pcfg.dominates(n.id, first.id)]
+        ok = len(ini) >= 1 and src(ini[-1].ast.value).replace("dict()", "{}") == val
+        chk.ob("TIER-1", "the tier table is rebuilt from scratch: %s starts at %s before the tiers are read" % (attr, val), ok, pt_.where(first.ast), construct=pt_.ident,
+               text="tier rebuild start " + attr)
     ad = [c for c in sw.calls() if call_attr(c) == "_add_credit_units"]
     ok = len(ad) == 1 and _arg0(ad[0], "credit_units").replace(" ", "") == "value/self.credit_unit" and \
         (kwarg(ad[0], "price_tiering") is None or src(kwarg(ad[0], "price_tiering")) == "True")
@@ -451,6 +478,8 @@ def battery():
         M("game start uses up the once-per-game tier reset", CR, "        # pricing tiers will restart when the game starts\n        self.credit_units_for_pricing_tiers = 0", "        # pricing tiers will restart when the game starts\n        self._reset_pricing_tier_credits()", "FLAG-20"),
         M("expiry periods run from the first coin", CR, "            self.delay.reset(\n                ms=self.credits_config['fractional_credit_expiration_time'],", "            self.delay.add_if_doesnt_exist(\n                ms=self.credits_config['fractional_credit_expiration_time'],", "UNIT-7"),
         M("a stored falsy setting falls back to the default", "mpf/core/settings_controller.py", "        if not self.machine.variables.is_machine_var(self._settings[setting_name].machine_var):\n            value = self._settings[setting_name].default\n        else:\n            value = self.machine.variables.get_machine_var(self._settings[setting_name].machine_var)\n", "        value = self.machine.variables.get_machine_var(self._settings[setting_name].machine_var)\n        if not value:\n            value = self._settings[setting_name].default\n", "TABLE-10"),
+        M("coin at the credit cap not audited", CR, "        self._add_credit_units(credit_units=value / self.credit_unit)\n        self._audit(value, audit_class, key_name)", "        if self._add_credit_units(credit_units=value / self.credit_unit):\n            self._audit(value, audit_class, key_name)", "DOM-38"),
+        M("tier wrap-around carried over from the previous table", CR, "        self.pricing_tiers_wrap_around = 0\n        pricing_tiers = []", "        pricing_tiers = []", "TIER-1"),
     ]
 
 
